@@ -597,6 +597,17 @@ class Sym:
     def __int__(self):
         if self.is_const():
             return int(self.v)
+        v = self.v
+        if z3.is_app(v) and v.decl().kind() == z3.Z3_OP_TO_REAL:
+            # int(float(i)) for an integer that travelled through a double: exact up to 2**53, unrelated beyond
+            x = v.arg(0)
+            junk = z3.Int(CTX.fresh("intviafloat"))
+            if CTX.shadow is not None:
+                from .shadow import evalf
+
+                CTX.shadow[str(junk)] = int(float(evalf(x, CTX.shadow)))
+            lim = 2 ** 53
+            return SymInt(z3.If(z3.And(x >= -lim, x <= lim), x, junk))
         raise Unsupported("int() of a symbolic value")
 
     def __round__(self, n=None):
